@@ -86,7 +86,41 @@ func filterNames(v c06.Val) []string {
 	return nil
 }
 
+// ccittCap is the documented bound of FilterCCITTFax.Decode for the stage's
+// parameters: at most min(MaxImageHeight, MaxImagePixels / Columns) rows (at
+// least one) of ceil(Columns / 8) bytes, whether or not /Rows is given.
+func ccittCap(parms c06.Val) int {
+	cols := 1728
+	if parms.T == "dict" {
+		if v, ok := parms.D["Columns"]; ok && v.T == "int" && v.I > 0 && v.I <= 1<<20 {
+			cols = int(v.I)
+		}
+	}
+	rows := 128 << 20 / cols
+	if rows > 1<<16 {
+		rows = 1 << 16
+	}
+	if rows < 1 {
+		rows = 1
+	}
+	return rows * ((cols + 7) / 8)
+}
+
 func capFor(c *Case) int {
+	// a single CCITTFax stage: the exact bound
+	if c.Filter.T == "name" && c.Filter.S == "CCITTFaxDecode" {
+		return ccittCap(c.Parms)
+	}
+	if c.Filter.T == "array" && len(c.Filter.A) > 0 {
+		last := len(c.Filter.A) - 1
+		if f := c.Filter.A[last]; f.T == "name" && f.S == "CCITTFaxDecode" {
+			p := c06.Val{T: "none"}
+			if c.Parms.T == "array" && len(c.Parms.A) > last {
+				p = c.Parms.A[last]
+			}
+			return ccittCap(p)
+		}
+	}
 	capBytes := 0
 	for _, n := range filterNames(c.Filter) {
 		switch n {
@@ -129,8 +163,12 @@ func (c *Case) Body() []byte {
 }
 
 // measure decodes the case once.
-func measureOnce(c *Case, keep bool) (rec Rec) {
-	body := c.Body()
+// measureOnce decodes the case once.  Everything the harness itself needs
+// (the body, the stream object, the read buffer) exists before the counters
+// are read: allocation, goroutines and time are process wide quantities, so
+// nothing else may run or allocate in this process during the window (the
+// caller runs the cases strictly one after the other).
+func measureOnce(c *Case, body []byte, keep, isolate bool) (rec Rec) {
 	rec = Rec{RawLen: len(body), Class: c.Class, CapBytes: capFor(c)}
 	dict := pdf.Dict{}
 	if c.Filter.T != "none" {
@@ -138,6 +176,15 @@ func measureOnce(c *Case, keep bool) (rec Rec) {
 	}
 	if c.Parms.T != "none" {
 		dict["DecodeParms"] = c06.ToObject(c.Parms)
+	}
+	stm := pdf.NewStream(dict, body)
+	buf := make([]byte, 32<<10)
+	if c.Abandon > 0 && c.Abandon < len(buf) {
+		buf = buf[:c.Abandon]
+	}
+	if isolate {
+		runtime.GC()
+		runtime.GC()
 	}
 	runtime.Gosched()
 	g0 := runtime.NumGoroutine()
@@ -150,15 +197,10 @@ func measureOnce(c *Case, keep bool) (rec Rec) {
 				rec.Note = fmt.Sprint(p)
 			}
 		}()
-		stm := pdf.NewStream(dict, body)
 		r, err := pdf.DecodeStream(theGetter, nil, stm)
 		if err != nil {
 			rec.Outcome, rec.Note = classify(err)
 			return
-		}
-		buf := make([]byte, 32<<10)
-		if c.Abandon > 0 && c.Abandon < len(buf) {
-			buf = buf[:c.Abandon]
 		}
 		limit := hardStop
 		if rec.CapBytes > 0 {
@@ -224,19 +266,22 @@ func classify(err error) (string, string) {
 }
 
 // measure runs the case under a watchdog; a hit is re-run before it counts.
-func measure(c *Case, keep bool) Rec {
+func measure(c *Case, keep, isolate bool) Rec {
+	body := c.Body() // generated here, never inside the measured window
+	budget := 20*time.Second + time.Duration(len(body))*20*time.Microsecond
 	for attempt := 0; ; attempt++ {
 		done := make(chan Rec, 1)
-		go func() { done <- measureOnce(c, keep) }()
-		budget := 20*time.Second + time.Duration(len(c.Body()))*20*time.Microsecond
+		timer := time.NewTimer(budget)
+		go func() { done <- measureOnce(c, body, keep, isolate) }()
 		select {
 		case r := <-done:
+			timer.Stop()
 			return r
-		case <-time.After(budget):
+		case <-timer.C:
 			if attempt == 0 {
 				continue
 			}
-			return Rec{Outcome: "hang", RawLen: len(c.Body()), Class: c.Class, CapBytes: capFor(c), Note: "no result within " + budget.String() + " (twice)"}
+			return Rec{Outcome: "hang", RawLen: len(body), Class: c.Class, CapBytes: capFor(c), Note: "no result within " + budget.String() + " (twice)"}
 		}
 	}
 }
@@ -318,7 +363,7 @@ func replay(ctx *core.Ctx, raw json.RawMessage) error {
 	if err := json.Unmarshal(raw, &c); err != nil {
 		return core.Infra("replay: %v", err)
 	}
-	r := measure(&c, false)
+	r := measure(&c, false, true)
 	fmt.Printf("  outcome=%s produced=%d allocKB=%d wallUs=%d leaked=%d %s\n", r.Outcome, r.Produced, r.AllocKB, r.WallUs, r.Leaked, r.Note)
 	bad, err := judge(ctx, []Rec{r})
 	if err != nil {
